@@ -42,6 +42,76 @@ func (c *Ctx) registrations() []registration {
 				if !ok || sel.Sel.Name != "Register" || len(call.Args) < 2 {
 					return true
 				}
+				// a table of entries: for _, e := range []struct{a, b Type; op F}{{IntTypeId, IntTypeId, func..}, ...} { m.Register(e.a, e.b, e.op) }
+				if fsel, isSel := ast.Unparen(call.Args[len(call.Args)-1]).(*ast.SelectorExpr); isSel {
+					if eid, isID := ast.Unparen(fsel.X).(*ast.Ident); isID {
+						if rs := rangeOver(c, info, eid); rs != nil {
+							tbl := ast.Unparen(rs.X)
+							if tid, ok := tbl.(*ast.Ident); ok {
+								if tv, ok := info.ObjectOf(tid).(*types.Var); ok {
+									if rhs, has := singleDefExpr[tv]; has {
+										tbl = ast.Unparen(rhs)
+									}
+								}
+							}
+							if cl, ok := tbl.(*ast.CompositeLit); ok {
+								if st, ok := info.TypeOf(eid).Underlying().(*types.Struct); ok {
+									owner := ""
+									if fd := c.EnclosingDecl(call); fd != nil {
+										owner = fd.Name.Name
+									}
+									okAll := true
+									var rows []registration
+									for _, el := range cl.Elts {
+										ecl, ok := ast.Unparen(el).(*ast.CompositeLit)
+										if !ok {
+											okAll = false
+											break
+										}
+										fields := map[string]ast.Expr{}
+										for i, fe := range ecl.Elts {
+											if kv, ok := fe.(*ast.KeyValueExpr); ok {
+												if kid, ok := kv.Key.(*ast.Ident); ok {
+													fields[kid.Name] = kv.Value
+												}
+											} else if i < st.NumFields() {
+												fields[st.Field(i).Name()] = fe
+											}
+										}
+										var tys []ast.Expr
+										for _, a := range call.Args[:len(call.Args)-1] {
+											as, ok := ast.Unparen(a).(*ast.SelectorExpr)
+											if !ok || fields[as.Sel.Name] == nil {
+												okAll = false
+												break
+											}
+											tys = append(tys, fields[as.Sel.Name])
+										}
+										fl, _ := ast.Unparen(fields[fsel.Sel.Name]).(*ast.FuncLit)
+										if fl == nil {
+											if fid, ok := ast.Unparen(fields[fsel.Sel.Name]).(*ast.Ident); ok {
+												if fn, isFn := info.Uses[fid].(*types.Func); isFn && fn.Pkg() == pkg.Types {
+													if nd := findFuncDecl(pkg, fn); nd != nil && nd.Body != nil {
+														fl = namedCellLit(nd)
+													}
+												}
+											}
+										}
+										if !okAll || fl == nil {
+											okAll = false
+											break
+										}
+										rows = append(rows, registration{pkg: pkg, call: call, types: tys, lit: fl, owner: owner})
+									}
+									if okAll && len(rows) > 0 {
+										res = append(res, rows...)
+										return true
+									}
+								}
+							}
+						}
+					}
+				}
 				lit, ok := ast.Unparen(call.Args[len(call.Args)-1]).(*ast.FuncLit)
 				if !ok {
 					// a named function of the package: m.Register(IntTypeId, IntTypeId, lessIntInt)
@@ -879,6 +949,38 @@ func ruleR144(c *Ctx) {
 												id, ok := ast.Unparen(s2.X).(*ast.Ident)
 												return ok && info.ObjectOf(id) == robj
 											})
+										}
+									}
+								}
+							}
+						}
+						// a constructor of the package that wraps the operator object it is given: checkedBoolFunc(m)
+						if hc, ok := ast.Unparen(t.Rhs[i]).(*ast.CallExpr); ok && !viaMethod {
+							if hcal := Callee(info, hc); hcal != nil && hcal.Pkg() == vp.Types {
+								if hd := findFuncDecl(vp, hcal); hd != nil && hd.Body != nil && hd.Type.Params != nil {
+									pi := 0
+									for _, fl := range hd.Type.Params.List {
+										for _, nm := range fl.Names {
+											if pi < len(hc.Args) {
+												if aid, ok := ast.Unparen(hc.Args[pi]).(*ast.Ident); ok && info.ObjectOf(aid) == ret {
+													pobj := info.Defs[nm]
+													if containsNodeDeep(hd.Body, func(y ast.Node) bool {
+														cc, ok := y.(*ast.CallExpr)
+														if !ok {
+															return false
+														}
+														s2, ok := ast.Unparen(cc.Fun).(*ast.SelectorExpr)
+														if !ok || s2.Sel.Name != "Calc" {
+															return false
+														}
+														id, ok := ast.Unparen(s2.X).(*ast.Ident)
+														return ok && info.ObjectOf(id) == pobj
+													}) {
+														viaMethod = true
+													}
+												}
+											}
+											pi++
 										}
 									}
 								}
